@@ -14,6 +14,40 @@ from ..sem import term, unwrap
 CLS = 'nix::FormatVersion'
 
 
+class MagnitudeDependent(Exception):
+    """the comparison is not a function of the component order alone"""
+
+    def __init__(self, coeffs, signs, node):
+        Exception.__init__(self, 'magnitude dependent')
+        self.coeffs = coeffs
+        self.signs = signs
+        self.node = node
+
+    def witness(self):
+        pos = [i for i in sorted(self.coeffs) if self.coeffs[i] * self.signs[i] > 0]
+        neg = [i for i in sorted(self.coeffs) if self.coeffs[i] * self.signs[i] < 0]
+        i, j = pos[0], neg[0]
+        d = [0, 0, 0]
+        d[i] = abs(self.coeffs[j]) * (1 if self.signs[i] > 0 else -1)
+        d[j] = abs(self.coeffs[i]) * (1 if self.signs[j] > 0 else -1)
+        return tuple(d)
+
+
+def _lin(v):
+    if isinstance(v, tuple) and v and v[0] == 'comp':
+        return {(v[1], v[2]): 1}, 0
+    if isinstance(v, tuple) and v and v[0] == 'lin':
+        return dict(v[1]), v[2]
+    if isinstance(v, int) and not isinstance(v, bool):
+        return {}, v
+    return None
+
+
+def _mklin(m, k):
+    m = {kk: c for kk, c in m.items() if c != 0}
+    return ('lin', tuple(sorted(m.items())), k)
+
+
 class VerInterp(Interp):
     def __init__(self, prog, fieldidx, signs):
         Interp.__init__(self, prog, inline=lambda fn: fn.cls == CLS)
@@ -26,6 +60,38 @@ class VerInterp(Interp):
         raise Unsupported('member %s of %r at %s' % (name, base, n.loc()))
 
     def binop(self, op, l, r, n):
+        ll, rl = _lin(l), _lin(r)
+        is_lin = (isinstance(l, tuple) and l and l[0] == 'lin') or (isinstance(r, tuple) and r and r[0] == 'lin')
+        if ll is not None and rl is not None and (ll[0] or rl[0]) and op in ('+', '-', '*'):
+            # linear forms over components (e.g. a packed version number)
+            if op == '*':
+                if ll[0] and rl[0]:
+                    raise Unsupported('product of two version components at %s' % n.loc())
+                (m, k), c = (ll, rl[1]) if ll[0] else (rl, ll[1])
+                return _mklin({kk: cc * c for kk, cc in m.items()}, k * c)
+            sg = 1 if op == '+' else -1
+            m = dict(ll[0])
+            for kk, cc in rl[0].items():
+                m[kk] = m.get(kk, 0) + sg * cc
+            return _mklin(m, ll[1] + sg * rl[1])
+        if is_lin and ll is not None and rl is not None and op in ('<', '<=', '>', '>=', '==', '!='):
+            m = dict(ll[0])
+            for kk, cc in rl[0].items():
+                m[kk] = m.get(kk, 0) - cc
+            k = ll[1] - rl[1]
+            coeffs = {}
+            for i in range(3):
+                ca, cb = m.get(('A', i), 0), m.get(('B', i), 0)
+                if ca != -cb:
+                    raise Unsupported('linear comparison that is not a function of component differences at %s' % n.loc())
+                coeffs[i] = ca
+            if k != 0 or any(kk[1] not in (0, 1, 2) for kk in m):
+                raise Unsupported('linear comparison with a constant offset at %s' % n.loc())
+            terms = [coeffs[i] * self.signs[i] for i in range(3) if coeffs[i] * self.signs[i] != 0]
+            if terms and not (all(t > 0 for t in terms) or all(t < 0 for t in terms)):
+                raise MagnitudeDependent(coeffs, self.signs, n)
+            sgn = 0 if not terms else (1 if terms[0] > 0 else -1)
+            return {'<': sgn < 0, '<=': sgn <= 0, '>': sgn > 0, '>=': sgn >= 0, '==': sgn == 0, '!=': sgn != 0}[op]
         lc = isinstance(l, tuple) and l and l[0] == 'comp'
         rc = isinstance(r, tuple) and r and r[0] == 'comp'
         if lc or rc:
@@ -105,12 +171,21 @@ def run(prog, rep):
         fn = prog.fn('%s::%s' % (CLS, name))
         for signs in itertools.product((-1, 0, 1), repeat=3):
             it = VerInterp(prog, idx, signs)
-            res = it.enumerate(fn, this=('obj', 'A'), args=[('obj', 'B')])
+            want = spec[name](signs)
+            try:
+                res = it.enumerate(fn, this=('obj', 'A'), args=[('obj', 'B')])
+            except MagnitudeDependent as md:
+                n_eval += 1
+                d = md.witness()
+                rule.bad('%s::%s|signs=%s' % (CLS, name, ','.join('%+d' % s for s in signs)), rep.where(md.node), fn.q,
+                         '%s(A,B) is decided by comparing a weighted sum of the components (%s): for component differences A-B = %s the weighted '
+                         'difference is 0 although the components differ, so the result depends on magnitudes and cannot equal the '
+                         'component-wise specification (%s) for all versions with sign(A-B) = %s' % (name, md.node.src(60), d, want, signs))
+                continue
             if len(res) != 1:
                 raise AnalysisBroken('%s is not a function of the sign vector alone' % fn.q)
             out = res[0][1]
             n_eval += 1
-            want = spec[name](signs)
             got = out[1] if out[0] == 'ret' else out
             rule.check(got is want, '%s::%s|signs=%s' % (CLS, name, ','.join('%+d' % s for s in signs)), rep.where(fn), fn.q,
                        '%s(A,B) = %s for sign(A-B) = %s' % (name, want, signs),
@@ -122,8 +197,11 @@ def run(prog, rep):
         vals = []
         for nm in ('operator<', 'operator==', 'operator>'):
             it = VerInterp(prog, idx, signs)
-            out = it.enumerate(fns[nm], this=('obj', 'A'), args=[('obj', 'B')])[0][1]
-            vals.append(out[1] if out[0] == 'ret' else None)
+            try:
+                out = it.enumerate(fns[nm], this=('obj', 'A'), args=[('obj', 'B')])[0][1]
+                vals.append(out[1] if out[0] == 'ret' else None)
+            except MagnitudeDependent:
+                vals.append('magnitude-dependent')
         tri.check(vals.count(True) == 1 and vals.count(False) == 2, 'trichotomy|signs=%s' % ','.join('%+d' % s for s in signs),
                   rep.where(fns['operator<']), CLS, '(<,==,>) = %s' % (vals,), '(<,==,>) = %s is not exactly-one-true' % (vals,))
     rep.extra['abstract_evaluations'] = n_eval + 81
